@@ -5,6 +5,15 @@ from core import Corr, Violation, run_driver
 from extract import pyx_c09
 
 ID = "C09"
+#: functions the hand-written model transcribes: their control skeleton (extract/shape.py) is regenerated into
+#: Gen/C09.lean and compared with the literal in Properties/C09.lean (`modelled_functions_have_the_transcribed_shape`)
+SHAPES = [
+    ("shapeFit", "mlinsights/mlmodel/piecewise_tree_regression.py", "PiecewiseTreeRegressor.fit"),
+    ("shapeFitReglin", "mlinsights/mlmodel/piecewise_tree_regression.py", "PiecewiseTreeRegressor._fit_reglin"),
+    ("shapePredict", "mlinsights/mlmodel/piecewise_tree_regression.py", "PiecewiseTreeRegressor.predict"),
+    ("shapePredictReglin", "mlinsights/mlmodel/piecewise_tree_regression.py", "PiecewiseTreeRegressor._predict_reglin"),
+    ("shapePredictLeaves", "mlinsights/mlmodel/piecewise_tree_regression.py", "PiecewiseTreeRegressor.predict_leaves"),
+]
 MM = "mlinsights/mlmodel/"
 SOURCES = [MM + "_piecewise_tree_regression_common.pyx", MM + "piecewise_tree_regression_criterion.pyx",
            MM + "piecewise_tree_regression_criterion_fast.pyx",
@@ -489,6 +498,12 @@ def tree_oracle(inp):
     X = numpy.array(inp["X"], dtype=float)
     y = numpy.array(inp["y"], dtype=float)
     Xq = numpy.array(inp["X"] + inp["Xq"], dtype=float)
+    # "all training sets": a feature expressed in another unit (column 0 multiplied by 10^e); the least-squares
+    # prediction is the same function of the rows, and is computed below in exact rational arithmetic
+    e10 = int(inp.get("col0_exp10", 0))
+    if e10:
+        X[:, 0] *= 10.0 ** e10
+        Xq[:, 0] *= 10.0 ** e10
     crit, md, msl = inp["criterion"], inp["max_depth"], inp["min_samples_leaf"]
     bad = []
     model = PiecewiseTreeRegressor(criterion=crit, max_depth=md, min_samples_leaf=msl)
@@ -500,9 +515,11 @@ def tree_oracle(inp):
             model.fit(X, ybad)
         except Exception:  # noqa: BLE001
             pass
+    # rows to predict may come in another dtype than the training matrix (integer-valued rows as int64)
+    Xq_call = Xq.astype(numpy.int64) if inp.get("query_dtype") == "int64" and (Xq == numpy.round(Xq)).all() else Xq
     try:
         model.fit(X, y)
-        pred = model.predict(Xq)
+        pred = model.predict(Xq_call)
     except Exception as e:
         return [("PiecewiseTreeRegressor.%s:raises" % crit, "fit/predict raises on a valid training set",
                  "%s: %s" % (type(e).__name__, str(e)[:200]), "a fitted model")]
@@ -526,6 +543,21 @@ def tree_oracle(inp):
         else:
             A = numpy.hstack([X[ind], numpy.ones((int(ind.sum()), 1))])
             beta, _, rank, _ = numpy.linalg.lstsq(A, y[ind], rcond=None)
+            if e10:
+                # exact: the unscaled problem has the same fitted values (column scaling is a reparametrisation)
+                A0 = numpy.hstack([numpy.array(inp["X"], dtype=float)[ind], numpy.ones((int(ind.sum()), 1))])
+                beta0, _, rank, _ = numpy.linalg.lstsq(A0, y[ind], rcond=None)
+                q0 = numpy.array((inp["X"] + inp["Xq"])[k], dtype=float)
+                if k >= n and rank < d + 1:
+                    continue
+                req = float(numpy.append(q0, 1.0) @ beta0)
+                ok = abs(pred[k] - req) <= 1e-3 * max(1.0, abs(req))
+                if not ok:
+                    bad.append(("PiecewiseTreeRegressor.%s:leaf-prediction" % crit,
+                                "prediction is not the least-squares fit of the training rows sharing the leaf "
+                                "(feature 0 in units of 10^%d)" % e10, float(pred[k]), req))
+                    break
+                continue
             if k >= n and rank < d + 1:
                 continue        # the OLS fit is not unique away from the training rows of this leaf
             req = float(numpy.append(Xq[k], 1.0) @ beta)
@@ -573,6 +605,10 @@ def search(ctx, hints):
                "Xq": moment_X(rng.sample(range(pool), 4), d), "criterion": rng.choice(["mselin", "mselin", "simple"]),
                "max_depth": rng.choice([1, 2, 3, None]), "min_samples_leaf": rng.choice([1, 2, 3, 5]),
                "oracle": "tree", "failed_fit_first": t % 5 == 2}
+        if t % 4 == 1:
+            inp["query_dtype"] = "int64"
+        if t % 6 == 3 and inp["criterion"] == "mselin":
+            inp["col0_exp10"] = rng.choice([-10, -12, 10])
         evals += 1
         nontriv.add(("tree", t))
         for key, what, obs, req in tree_oracle(inp):
